@@ -27,6 +27,8 @@ pub fn check(tier: Tier) -> Check {
         // every error the client hands out is printed too (Display / Debug / source(), spec::err_dig):
         // reason strings whose every byte offset lies inside a multi-byte character for some member
         Part::new("C04/utf8-align", json!({}), 0, 60),
+        // thousands of well-formed packets with no request of the application in between
+        Part::new("C04/burst", json!({"max": tier.pick(8193, 65537)}), 0, 120),
         Part::new("C04/resume", json!({"depth": 4, "expiry": 1000, "secs_ago": 10, "r2": 1}), 0, 60),
         Part::new("C04/resume", json!({"depth": 4, "expiry": 1000, "secs_ago": 10, "r": 2, "r2": 2}), 0, 60),
         Part::new("C04/trickle", json!({"size": tier.pick(65_536, 2_100_000)}), 0, 120),
@@ -509,6 +511,9 @@ pub fn scenario(name: &str, params: &Value) -> Scenario {
     let name = name.to_string();
     if name == "C04/states" {
         return states(name, params);
+    }
+    if name == "C04/burst" {
+        return super::c03::burst("C04", name, params);
     }
     if name == "C04/utf8-align" {
         return super::c02::utf8_align("C04", name, params);
